@@ -86,6 +86,14 @@ func (bm *blockMetadata) copyFrom(src *blockMetadata) {
 		}
 		bm.tagType.copyFrom(src.tagType)
 	}
+	// Drop the tag families the source block does not have: the destination is reused
+	// across blocks (partIter.curBlock), and a stale entry would make the reader load
+	// another block's tag family data for this block.
+	for k := range bm.tagFamilies {
+		if _, ok := src.tagFamilies[k]; !ok {
+			delete(bm.tagFamilies, k)
+		}
+	}
 	for k, db := range src.tagFamilies {
 		if bm.tagFamilies == nil {
 			bm.tagFamilies = make(map[string]*dataBlock)
